@@ -54,6 +54,8 @@ type c05Tx struct {
 	Target  string `json:"target"`  // eoa | x | create | y
 	Mode    int    `json:"mode"`    // x: 0..8 ; create: 0 ok, 1 reverting init code
 	W       string `json:"w"`       // x modes 3,6: wei forwarded; modes 7,8: unibi sent by the precompile
+	Signer  int       `json:"signer"` // inside a bundle: which of the three funded keys signs (0, 1, 2)
+	Bundle  []c05Tx   `json:"bundle"` // non-empty: ONE Cosmos tx carrying these MsgEthereumTx; the outer fields are unused
 	Steps   []c05Step `json:"steps"` // target d: calls the driver contract D makes to X inside this one tx
 }
 
@@ -80,6 +82,8 @@ type c05Der struct {
 	Expect    string `json:"expect"` // ok | fail : what the EVM run does given enough balance (scenario knowledge)
 	BaseFee   string `json:"basefee"`
 	BlockGas  uint64 `json:"blockgas"`
+	Signer    int      `json:"signer"` // account id of the signer (bundle messages)
+	Msgs      []c05Der `json:"msgs"`   // bundle: one entry per message
 }
 
 type c05Obs struct {
@@ -87,6 +91,8 @@ type c05Obs struct {
 	AntePass bool     `json:"ante"`
 	VmErr    bool     `json:"vmerr"`
 	GasUsed  int64    `json:"gasused"` // -1: no response
+	GasUsedL []int64  `json:"gasused_list"` // one entry per EventEthereumTx (bundles)
+	VmErrL   []bool   `json:"vmerr_list"`
 	Before   []string `json:"before"`
 	After    []string `json:"after"`
 	SupplyB  string   `json:"supply_before"`
@@ -170,7 +176,7 @@ func (w *c05World) bal(a gethcommon.Address) *big.Int {
 	return w.c.App.BankKeeper.GetBalance(w.c.Ctx(), eth.EthAddrToNibiruAddr(a), "unibi").Amount.BigInt()
 }
 
-func (w *c05World) encode(msg *evm.MsgEthereumTx) ([]byte, error) {
+func (w *c05World) encode(msgs ...*evm.MsgEthereumTx) ([]byte, error) {
 	c := w.c
 	b := c.TxCfg.NewTxBuilder().(authtx.ExtensionOptionsTxBuilder)
 	opt, err := codectypes.NewAnyWithValue(&evm.ExtensionOptionsEthereumTx{})
@@ -178,26 +184,35 @@ func (w *c05World) encode(msg *evm.MsgEthereumTx) ([]byte, error) {
 		return nil, err
 	}
 	b.SetExtensionOptions(opt)
-	msg.From = ""
-	if err := b.SetMsgs(msg); err != nil {
+	fee := sdkmath.ZeroInt()
+	gas := uint64(0)
+	var sm []sdk.Msg
+	for _, msg := range msgs {
+		msg.From = ""
+		sm = append(sm, msg)
+		fee = fee.Add(sdkmath.NewIntFromBigInt(evm.WeiToNative(msg.EffectiveFeeWei(evm.BASE_FEE_WEI))))
+		gas += msg.GetGas()
+	}
+	if err := b.SetMsgs(sm...); err != nil {
 		return nil, err
 	}
-	fee := sdkmath.NewIntFromBigInt(evm.WeiToNative(msg.EffectiveFeeWei(evm.BASE_FEE_WEI)))
 	b.SetFeeAmount(sdk.NewCoins(sdk.NewCoin("unibi", fee)))
-	b.SetGasLimit(msg.GetGas())
+	b.SetGasLimit(gas)
 	return c.TxCfg.TxEncoder()(b.GetTx())
 }
 
 func (w *c05World) runCase(t *testing.T, cs c05Case) ([]c05Der, []c05Obs) {
 	c := w.c
-	S := evmtest.NewEthPrivAcc()
+	S, S1, S2 := evmtest.NewEthPrivAcc(), evmtest.NewEthPrivAcc(), evmtest.NewEthPrivAcc()
 	R := evmtest.NewEthPrivAcc().EthAddr
 	B := evmtest.NewEthPrivAcc().EthAddr
 	c.BeginBlock(5 * time.Second)
 	w.blocks++
 	fund := bigOf(cs.Fund)
-	if err := c.Fund(S.NibiruAddr, sdk.NewCoins(sdk.NewCoin("unibi", sdkmath.NewIntFromBigInt(fund)))); err != nil {
-		t.Fatal(err)
+	for _, a := range []evmtest.EthPrivKeyAcc{S, S1, S2} {
+		if err := c.Fund(a.NibiruAddr, sdk.NewCoins(sdk.NewCoin("unibi", sdkmath.NewIntFromBigInt(fund)))); err != nil {
+			t.Fatal(err)
+		}
 	}
 	if rb := bigOf(cs.RBal); rb.Sign() > 0 {
 		if err := c.Fund(eth.EthAddrToNibiruAddr(R), sdk.NewCoins(sdk.NewCoin("unibi", sdkmath.NewIntFromBigInt(rb)))); err != nil {
@@ -208,6 +223,7 @@ func (w *c05World) runCase(t *testing.T, cs c05Case) ([]c05Der, []c05Obs) {
 	fc := gethcommon.BytesToAddress(c.App.AccountKeeper.GetModuleAddress("fee_collector"))
 	var ders []c05Der
 	var obs []c05Obs
+	signerAccs := []evmtest.EthPrivKeyAcc{S, S1, S2}
 	for _, tx := range cs.Txs {
 		c.BeginBlock(5 * time.Second)
 		w.blocks++
@@ -216,93 +232,15 @@ func (w *c05World) runCase(t *testing.T, cs c05Case) ([]c05Der, []c05Obs) {
 			w.xAlive = true
 		}
 		ctx := c.Ctx()
-		nonce := uint64(0)
-		if acc := c.App.AccountKeeper.GetAccount(ctx, S.NibiruAddr); acc != nil {
-			nonce = acc.GetSequence()
+		seqOf := func(a evmtest.EthPrivKeyAcc) uint64 {
+			if acc := c.App.AccountKeeper.GetAccount(c.Ctx(), a.NibiruAddr); acc != nil {
+				return acc.GetSequence()
+			}
+			return 0
 		}
-		N := crypto.CreateAddress(S.EthAddr, nonce)
-		accts := []gethcommon.Address{S.EthAddr, fc, R, w.X, B, N, w.Y, w.B2, w.C3, w.D}
-		// payload
-		var to *gethcommon.Address
-		var data []byte
-		toID := 2
-		expect := "ok"
-		hasCode := false
-		switch tx.Target {
-		case "eoa":
-			a := R
-			to = &a
-		case "x":
-			a := w.X
-			to = &a
-			toID = 3
-			hasCode = true
-			data = make([]byte, 96)
-			data[31] = byte(tx.Mode)
-			bigOf(tx.W).FillBytes(data[32:64])
-			copy(data[76:96], B.Bytes())
-			switch tx.Mode {
-			case 1, 2, 6, 8:
-				expect = "fail"
-			}
-			if tx.Mode == 7 || tx.Mode == 8 {
-				in, err := embeds.SmartContract_FunToken.ABI.Pack("bankMsgSend", eth.EthAddrToNibiruAddr(B).String(), "unibi", bigOf(tx.W))
-				if err != nil {
-					t.Fatal(err)
-				}
-				data = append(data, in...)
-			}
-		case "y":
-			a := w.Y
-			to = &a
-			toID = 6
-			hasCode = true
-			in, err := embeds.SmartContract_FunToken.ABI.Pack("whoAmI", S.NibiruAddr.String())
-			if err != nil {
-				t.Fatal(err)
-			}
-			data = in
-		case "d":
-			a := w.D
-			to = &a
-			toID = 9
-			hasCode = true
-			data = make([]byte, 64+128*len(tx.Steps))
-			copy(data[12:32], w.X.Bytes())
-			data[63] = byte(len(tx.Steps))
-			for i, st := range tx.Steps {
-				o := 64 + 128*i
-				data[o+31] = byte(st.Mode)
-				bigOf(st.Val).FillBytes(data[o+32 : o+64])
-				bigOf(st.W).FillBytes(data[o+64 : o+96])
-				ben := B
-				switch st.Benef {
-				case "R":
-					ben = R
-				case "D":
-					ben = w.D
-				case "X":
-					ben = w.X
-				}
-				copy(data[o+108:o+128], ben.Bytes())
-			}
-		case "create":
-			toID = 5
-			hasCode = true
-			data = c05CreateOK
-			if tx.Mode == 1 {
-				data = c05CreateRevert
-				expect = "fail"
-			}
-		}
-		var al gethcore.AccessList
-		if tx.Ty == 1 {
-			al = gethcore.AccessList{{Address: R, StorageKeys: []gethcommon.Hash{{1}}}}
-		}
-		intrinsic, err := core.IntrinsicGas(data, al, to == nil, true, true)
-		if err != nil {
-			t.Fatal(err)
-		}
+		nonce0 := seqOf(S)
+		N := crypto.CreateAddress(S.EthAddr, nonce0)
+		accts := []gethcommon.Address{S.EthAddr, fc, R, w.X, B, N, w.Y, w.B2, w.C3, w.D, S1.EthAddr, S2.EthAddr}
 		blockGas := eth.BlockGasLimit(ctx)
 		if blockGas == 0 {
 			if cp := c.App.GetConsensusParams(ctx); cp != nil && cp.Block != nil && cp.Block.MaxGas > 0 {
@@ -311,63 +249,167 @@ func (w *c05World) runCase(t *testing.T, cs c05Case) ([]c05Der, []c05Obs) {
 				blockGas = 1 << 62 // no limit
 			}
 		}
-		gas := intrinsic
-		switch tx.GasMode {
-		case "below":
-			gas = intrinsic - 1 - uint64(tx.GasAdd)%intrinsic
-			if gas == 0 {
-				gas = 1
+		// build signs one message of signer `from` with the given nonce
+		build := func(from evmtest.EthPrivKeyAcc, nonce uint64, tx c05Tx) (*evm.MsgEthereumTx, c05Der) {
+			var to *gethcommon.Address
+			var data []byte
+			toID := 2
+			expect := "ok"
+			hasCode := false
+			switch tx.Target {
+			case "eoa":
+				a := R
+				to = &a
+			case "x":
+				a := w.X
+				to = &a
+				toID = 3
+				hasCode = true
+				data = make([]byte, 96)
+				data[31] = byte(tx.Mode)
+				bigOf(tx.W).FillBytes(data[32:64])
+				copy(data[76:96], B.Bytes())
+				switch tx.Mode {
+				case 1, 2, 6, 8:
+					expect = "fail"
+				}
+				if tx.Mode == 7 || tx.Mode == 8 {
+					in, err := embeds.SmartContract_FunToken.ABI.Pack("bankMsgSend", eth.EthAddrToNibiruAddr(B).String(), "unibi", bigOf(tx.W))
+					if err != nil {
+						t.Fatal(err)
+					}
+					data = append(data, in...)
+				}
+			case "y":
+				a := w.Y
+				to = &a
+				toID = 6
+				hasCode = true
+				in, err := embeds.SmartContract_FunToken.ABI.Pack("whoAmI", from.NibiruAddr.String())
+				if err != nil {
+					t.Fatal(err)
+				}
+				data = in
+			case "d":
+				a := w.D
+				to = &a
+				toID = 9
+				hasCode = true
+				data = make([]byte, 64+128*len(tx.Steps))
+				copy(data[12:32], w.X.Bytes())
+				data[63] = byte(len(tx.Steps))
+				for i, st := range tx.Steps {
+					o := 64 + 128*i
+					data[o+31] = byte(st.Mode)
+					bigOf(st.Val).FillBytes(data[o+32 : o+64])
+					bigOf(st.W).FillBytes(data[o+64 : o+96])
+					ben := B
+					switch st.Benef {
+					case "R":
+						ben = R
+					case "D":
+						ben = w.D
+					case "X":
+						ben = w.X
+					}
+					copy(data[o+108:o+128], ben.Bytes())
+				}
+			case "create":
+				toID = 5
+				hasCode = true
+				data = c05CreateOK
+				if tx.Mode == 1 {
+					data = c05CreateRevert
+					expect = "fail"
+				}
 			}
-		case "exact":
-			if hasCode {
-				expect = "fail" // no gas left for the first opcode / code deposit
+			var al gethcore.AccessList
+			if tx.Ty == 1 {
+				al = gethcore.AccessList{{Address: R, StorageKeys: []gethcommon.Hash{{1}}}}
 			}
-		case "plus":
-			gas = intrinsic + uint64(tx.GasAdd)
-		case "ample":
-			gas = intrinsic + 300_000
-			if tx.Target == "d" {
-				gas = intrinsic + 2_000_000
+			intrinsic, err := core.IntrinsicGas(data, al, to == nil, true, true)
+			if err != nil {
+				t.Fatal(err)
 			}
-		case "large":
-			gas = blockGas
-		case "over":
-			gas = blockGas + 1 + uint64(tx.GasAdd)
+			gas := intrinsic
+			switch tx.GasMode {
+			case "below":
+				gas = intrinsic - 1 - uint64(tx.GasAdd)%intrinsic
+				if gas == 0 {
+					gas = 1
+				}
+			case "exact":
+				if hasCode {
+					expect = "fail" // no gas left for the first opcode / code deposit
+				}
+			case "plus":
+				gas = intrinsic + uint64(tx.GasAdd)
+			case "ample":
+				gas = intrinsic + 300_000
+				if tx.Target == "d" {
+					gas = intrinsic + 2_000_000
+				}
+			case "large":
+				gas = blockGas
+			case "over":
+				gas = blockGas + 1 + uint64(tx.GasAdd)
+			}
+			balWei := new(big.Int).Mul(w.bal(from.EthAddr), unibiWei)
+			var value *big.Int
+			if strings.HasPrefix(tx.Value, "bal-") {
+				value = new(big.Int).Sub(balWei, bigOf(tx.Value[4:]))
+				if value.Sign() < 0 {
+					value = new(big.Int)
+				}
+			} else {
+				value = bigOf(tx.Value)
+			}
+			var inner gethcore.TxData
+			switch tx.Ty {
+			case 1:
+				inner = &gethcore.AccessListTx{ChainID: c.ChainID, Nonce: nonce, GasPrice: bigOf(tx.Gp), Gas: gas, To: to, Value: value, Data: data, AccessList: al}
+			case 2:
+				inner = &gethcore.DynamicFeeTx{ChainID: c.ChainID, Nonce: nonce, GasTipCap: bigOf(tx.Tip), GasFeeCap: bigOf(tx.Cap), Gas: gas, To: to, Value: value, Data: data}
+			default:
+				inner = &gethcore.LegacyTx{Nonce: nonce, GasPrice: bigOf(tx.Gp), Gas: gas, To: to, Value: value, Data: data}
+			}
+			key, err := from.PrivKey.ToECDSA()
+			if err != nil {
+				t.Fatal(err)
+			}
+			stx, err := gethcore.SignTx(gethcore.NewTx(inner), gethcore.LatestSignerForChainID(c.ChainID), key)
+			if err != nil {
+				t.Fatal(err)
+			}
+			msg := &evm.MsgEthereumTx{}
+			if err := msg.FromEthereumTx(stx); err != nil {
+				t.Fatal(err)
+			}
+			return msg, c05Der{Gas: gas, Intrinsic: intrinsic, Value: value.String(), To: toID, Expect: expect,
+				BaseFee: evm.NativeToWei(c.App.EvmKeeper.BaseFeeMicronibiPerGas(ctx)).String(), BlockGas: blockGas}
 		}
-		balWei := new(big.Int).Mul(w.bal(S.EthAddr), unibiWei)
-		var value *big.Int
-		if strings.HasPrefix(tx.Value, "bal-") {
-			value = new(big.Int).Sub(balWei, bigOf(tx.Value[4:]))
-			if value.Sign() < 0 {
-				value = new(big.Int)
-			}
+		var msgs []*evm.MsgEthereumTx
+		var d c05Der
+		if len(tx.Bundle) == 0 {
+			var msg *evm.MsgEthereumTx
+			msg, d = build(S, nonce0, tx)
+			msgs = append(msgs, msg)
 		} else {
-			value = bigOf(tx.Value)
+			next := map[int]uint64{}
+			for _, sub := range tx.Bundle {
+				k := sub.Signer % len(signerAccs)
+				if _, ok := next[k]; !ok {
+					next[k] = seqOf(signerAccs[k])
+				}
+				msg, sd := build(signerAccs[k], next[k], sub)
+				next[k]++
+				sd.Signer = []int{0, 10, 11}[k]
+				msgs = append(msgs, msg)
+				d.Msgs = append(d.Msgs, sd)
+			}
+			d.BaseFee, d.BlockGas = d.Msgs[0].BaseFee, d.Msgs[0].BlockGas
 		}
-		var inner gethcore.TxData
-		switch tx.Ty {
-		case 1:
-			inner = &gethcore.AccessListTx{ChainID: c.ChainID, Nonce: nonce, GasPrice: bigOf(tx.Gp), Gas: gas, To: to, Value: value, Data: data, AccessList: al}
-		case 2:
-			inner = &gethcore.DynamicFeeTx{ChainID: c.ChainID, Nonce: nonce, GasTipCap: bigOf(tx.Tip), GasFeeCap: bigOf(tx.Cap), Gas: gas, To: to, Value: value, Data: data}
-		default:
-			inner = &gethcore.LegacyTx{Nonce: nonce, GasPrice: bigOf(tx.Gp), Gas: gas, To: to, Value: value, Data: data}
-		}
-		key, err := S.PrivKey.ToECDSA()
-		if err != nil {
-			t.Fatal(err)
-		}
-		stx, err := gethcore.SignTx(gethcore.NewTx(inner), gethcore.LatestSignerForChainID(c.ChainID), key)
-		if err != nil {
-			t.Fatal(err)
-		}
-		msg := &evm.MsgEthereumTx{}
-		if err := msg.FromEthereumTx(stx); err != nil {
-			t.Fatal(err)
-		}
-		d := c05Der{Gas: gas, Intrinsic: intrinsic, Value: value.String(), To: toID, Expect: expect,
-			BaseFee: evm.NativeToWei(c.App.EvmKeeper.BaseFeeMicronibiPerGas(ctx)).String(), BlockGas: blockGas}
-		o := c05Obs{GasUsed: -1, SeqB: nonce}
+		o := c05Obs{GasUsed: -1, SeqB: nonce0, GasUsedL: []int64{}, VmErrL: []bool{}}
 		snap := func() ([]string, string) {
 			var out []string
 			for _, a := range accts {
@@ -377,7 +419,7 @@ func (w *c05World) runCase(t *testing.T, cs c05Case) ([]c05Der, []c05Obs) {
 		}
 		o.Before, o.SupplyB = snap()
 		var res abci.ResponseDeliverTx
-		bz, err := w.encode(msg)
+		bz, err := w.encode(msgs...)
 		if err != nil {
 			res = abci.ResponseDeliverTx{Code: 9999, Log: "encode: " + err.Error()}
 		} else {
@@ -387,16 +429,20 @@ func (w *c05World) runCase(t *testing.T, cs c05Case) ([]c05Der, []c05Obs) {
 		o.Code = res.Code
 		o.AntePass = len(EventAttrs(res.Events, evm.PendingEthereumTxEvent)) > 0
 		for _, a := range EventAttrs(res.Events, "eth.evm.v1.EventEthereumTx") {
-			if g, err := strconv.ParseInt(strings.Trim(a["gas_used"], `"`), 10, 64); err == nil {
-				o.GasUsed = g
+			g, err := strconv.ParseInt(strings.Trim(a["gas_used"], `"`), 10, 64)
+			if err != nil {
+				g = -1
 			}
-			if v, ok := a["vm_error"]; ok && strings.Trim(v, `"`) != "" {
+			o.GasUsed = g
+			v, ok := a["vm_error"]
+			ve := ok && strings.Trim(v, `"`) != ""
+			if ve {
 				o.VmErr = true
 			}
+			o.GasUsedL = append(o.GasUsedL, g)
+			o.VmErrL = append(o.VmErrL, ve)
 		}
-		if acc := c.App.AccountKeeper.GetAccount(c.Ctx(), S.NibiruAddr); acc != nil {
-			o.SeqA = acc.GetSequence()
-		}
+		o.SeqA = seqOf(S)
 		if acct := c.App.EvmKeeper.GetAccount(c.Ctx(), w.X); acct == nil || !acct.IsContract() {
 			w.xAlive = false
 		}
